@@ -88,6 +88,11 @@ def run_seed(prop, seed, scratch_root):
             for fn in sorted(os.listdir(od)):
                 o = json.load(open(os.path.join(od, fn)))["obligation"]
                 keys.append(o["rule"] + "|" + o["function"] + "|" + o["construct"])
+        if seed.get("silent"):
+            # a behaviour-preserving refactor: the checker must stay quiet on it
+            if rc == 0:
+                return {"name": name, "status": "silent", "expect": "(no violation)", "reported": [], "all_reported": 0}
+            return {"name": name, "status": "false-alarm", "expect": "(no violation)", "reported": keys[:6], "rc": rc}
         exp = seed["expect"]
         hit = [k for k in keys if exp in k]
         if rc == 1 and hit:
@@ -149,6 +154,10 @@ def main():
         for r in sorted(seed_results, key=lambda r: r["name"]):
             if r["status"] == "fired":
                 print("selftest %-40s fired: %s" % (r["name"], r["reported"][0]))
+            elif r["status"] == "silent":
+                print("selftest %-40s silent (behaviour-preserving refactor, no alarm)" % r["name"])
+            elif r["status"] == "false-alarm":
+                print("SELFTEST-FALSE-ALARM %s: a behaviour-preserving refactor was reported: %s" % (r["name"], r["reported"]))
             elif r["status"] == "skipped":
                 print("selftest %-40s skipped (%s)" % (r["name"], r["why"]))
             elif r["status"] == "missed":
@@ -165,16 +174,18 @@ def main():
             "run": len([r for r in seed_results if r["status"] != "skipped"]),
             "fired": len([r for r in seed_results if r["status"] == "fired"]),
             "missed": [r["name"] for r in seed_results if r["status"] == "missed"],
+            "silent_refactors": [r["name"] for r in seed_results if r["status"] == "silent"],
+            "false_alarms": [r["name"] for r in seed_results if r["status"] == "false-alarm"],
             "skipped": [r["name"] for r in seed_results if r["status"] == "skipped"],
             "broken": [r["name"] for r in seed_results if r["status"] == "broken-seed"],
             "detail": sorted(seed_results, key=lambda r: r["name"]),
         }
         ev["wall_s"] = time.time() - t0
         json.dump(ev, open(evp, "w"), indent=1)
-    missed = [r for r in seed_results if r["status"] in ("missed", "broken-seed")]
+    missed = [r for r in seed_results if r["status"] in ("missed", "broken-seed", "false-alarm")]
     print("%s thorough: exit %d; configs %s; seeded edits: %d fired, %d missed, %d skipped" % (
         prop, rc_total, [c["exit"] for c in cfg_results],
-        len([r for r in seed_results if r["status"] == "fired"]), len(missed),
+        len([r for r in seed_results if r["status"] in ("fired", "silent")]), len(missed),
         len([r for r in seed_results if r["status"] == "skipped"])))
     if rc_total:
         sys.exit(rc_total)
